@@ -2,7 +2,7 @@
    correctness theorems for Bmult / Bplus / Bminus / Btrunc / binary_normalize. *)
 From Coq Require Import ZArith Reals Lia Lra List Bool.
 From Flocq Require Import Core BinarySingleNaN Relative.
-From Verif Require Import C18.Model gen.Pre C18.Run C18.Proofs C18.F64.
+From Verif Require Import C18.Model gen.Pre C18.Run C18.Proofs C18.F64 C18.Stats.
 Import ListNotations.
 Open Scope R_scope.
 
@@ -74,8 +74,7 @@ Qed.
 (* ---- the whole recurrence ------------------------------------------------ *)
 Definition vR (v : val) : R := B2R (to_f v).
 
-(* the real-number instance of the sample operations *)
-Definition Rops : ops R := ring_ops R 0 Rplus Rmult Rminus.
+(* the real-number instance of the sample operations is Stats.Rops *)
 
 (* a float sample that is z * 2^-j with |z| <= N *)
 Definition dy (j N : Z) (v : val) : Prop :=
@@ -248,7 +247,7 @@ Lemma dither_f64_zero_coeff_l : forall (sz : bool) ip ax x g, axis_ok ax = true 
 Proof.
   intros sz ip ax x g Hax HL Hg Hx.
   destruct (dither_values_l nops ngen (VF (B754_zero sz)) ip ax F64 x g Hax) as (_ & A & _).
-  rewrite !conv_same in A. eexists. split; [exact A|].
+  rewrite !conv_same in A. unfold rint_if_int in A. cbn [is_float] in A. eexists. split; [exact A|].
   assert (D : g_draw ngen g (length x) = g).
   { unfold g_draw, ngen, lgen. cbn [g_next]. rewrite <- HL. clear.
     induction g as [|a g IH]; [reflexivity|]. cbn [length seq map nth]. f_equal.
@@ -422,7 +421,7 @@ Lemma dither_f64_value_l : forall (cf : b64) (x g : list b64) ip ax i,
 Proof.
   intros cf x g ip ax i Hax HL Hi xi gi Fc Fg Fx H1 H2.
   destruct (dither_values_l nops ngen (VF cf) ip ax F64 (map VF x) (map VF g) Hax) as (_ & A & _).
-  rewrite !conv_same in A. eexists. split; [exact A|].
+  rewrite !conv_same in A. unfold rint_if_int in A. cbn [is_float] in A. eexists. split; [exact A|].
   rewrite map_length. rewrite <- HL at 1 3. rewrite <- (map_length VF g).
   unfold ngen. rewrite g_draw_lgen. unfold noise_of. split.
   - rewrite zipw_length; rewrite ?map_length; [reflexivity|now rewrite HL].
@@ -506,17 +505,60 @@ Proof.
     simpl (bpow radix2 (-1)). simpl (bpow radix2 2). lra.
 Qed.
 
-(* ---- a finding: on integer dtypes the cast back truncates toward zero, so
-   symmetric noise is not returned symmetrically.  Deviates +1/2 and -1/2 with
-   coeff 1 move the int16 sample 1000 by 0 and by -1 (mean -1/2, not 0); for the
-   sample -1000 by +1 and 0 (mean +1/2): the returned noise is biased by
-   -sign(x)/2 and so depends on the signal. *)
+(* ---- integer dtypes after the fix 60e9a5c: np.rint before the cast -------- *)
+Lemma nearbyint_trunc : forall f : b64, Btrunc (Bnearbyint mode_NE f) = ZnearestE (B2R f).
+Proof.
+  intros f. rewrite Btrunc_real.
+  destruct (Bnearbyint_correct 53 1024 _ mode_NE f) as (A & _). rewrite A. cbn [round_mode].
+  unfold round, scaled_mantissa, cexp, FIX_exp, F2R. cbn [Fnum Fexp Z.opp bpow].
+  rewrite !Rmult_1_r. apply Ztrunc_IZR.
+Qed.
+
+(* integer signal: Dither returns rint(float64(x) + (0 + c*g)), element by element *)
+Lemma dither_int_value_l : forall (c : val) d zs ip ax g,
+  is_float d = false -> axis_ok ax = true ->
+  out_arr (run nops ngen c ip ax dither_prog (Build_arr d (map VI zs)) g) =
+  Some (Build_arr d (map (fun v => VI (ZnearestE (vR v)))
+     (zipw (o_add nops) (map (fun z => VF (mk64 z 0)) zs)
+           (noise_of nops c (g_draw ngen g (length zs)))))).
+Proof.
+  intros c d zs ip ax g Hd Hax.
+  destruct (dither_values_l nops ngen c ip ax d (map VI zs) g Hax) as (_ & A & _).
+  rewrite A. f_equal. f_equal.
+  rewrite conv_int_to_f64, conv_f64_to_int, map_length by assumption.
+  unfold rint_if_int. rewrite Hd, map_map. apply map_ext. intros v.
+  unfold vR. cbn [o_rint nops to_f]. now rewrite <- Btrunc_real, nearbyint_trunc.
+Qed.
+
 Definition out_data (s : state val (list val)) : list repr :=
   match out_arr s with Some a => map repr_of (a_data a) | None => [] end.
 
-Lemma dither_int_noise_biased_l :
+(* regression witness for the repaired code: symmetric deviates +-3/4 (coeff 1)
+   move the int16 samples 1000 and -1000 by +1 and -1: symmetric, signal independent *)
+Lemma dither_int_noise_symmetric_l :
   let c := VF (mk64 1 0) in
   let run1 x g := out_data (run nops ngen c false None dither_prog (Build_arr I16 [VI x]) [VF g]) in
+  run1 1000%Z (mk64 3 (-2)) = [RInt 1001] /\ run1 1000%Z (mk64 (-3) (-2)) = [RInt 999] /\
+  run1 (-1000)%Z (mk64 3 (-2)) = [RInt (-999)] /\ run1 (-1000)%Z (mk64 (-3) (-2)) = [RInt (-1001)].
+Proof. vm_compute. repeat split. Qed.
+
+(* THE CODE BEFORE THE FIX (Dither.apply without the np.rint statement, written
+   out here; not generated): the cast truncated toward zero, so deviates +1/2
+   and -1/2 moved 1000 by 0 and -1 and -1000 by +1 and 0: noise biased by
+   -sign(x)/2.  Kept as a regression record of finding
+   dither-int-dtype-truncation-bias. *)
+Definition old_dither_prog : list stmt :=
+  [ SIf (BNot BAxisNone) [SWarn] [];
+    SSaveDtype;
+    SIf (BOr (BNot BInPlace) (BDtypeNe DCur F64)) [SAstype F64] [];
+    SIf (BOr BAxisNone (BOr (BNot (BNot BShapeEmpty)) (BNdimEq 1)))
+        [SAug OAdd None None (ENormal ShSignal)]
+        [SRandShapeInit; SRandShapeSet; SAug OAdd None None (ENormal ShRandom)];
+    SReturnAstypeSaved ].
+
+Lemma old_dither_int_noise_biased_l :
+  let c := VF (mk64 1 0) in
+  let run1 x g := out_data (run nops ngen c false None old_dither_prog (Build_arr I16 [VI x]) [VF g]) in
   run1 1000%Z (mk64 1 (-1)) = [RInt 1000] /\ run1 1000%Z (mk64 (-1) (-1)) = [RInt 999] /\
   run1 (-1000)%Z (mk64 1 (-1)) = [RInt (-999)] /\ run1 (-1000)%Z (mk64 (-1) (-1)) = [RInt (-1000)].
 Proof. vm_compute. repeat split. Qed.
